@@ -165,6 +165,21 @@ def rule_wrappers(ctx, rule="C07-wrap"):
         # (or the call to a sibling wrapper of the same operation: try_insert -> try_insert_str)
         sib = [w2 for w2, t2 in pairs.items() if t2 == tgt and w2 != w]
         ctx.ob(rule, w, "only-effect-is-delegate", names == [tgt] or (len(names) == 1 and names[0] in sib), how="only effect: %s" % tgt, detail="%s has effects %s (expected only the call to %s)" % (w, names, tgt))
+        # the try_ wrappers reject nothing themselves: which index (and which argument) panics is
+        # decided by the storage layer's validator alone
+        if w.rsplit("::", 1)[-1].startswith("try_"):
+            pan = explicit_panics(b, 0, None)
+            # (repeating the validator's own test - the index is not a char boundary of the text - rejects
+            # nothing the validator accepts)
+            def same_rejection(pb):
+                for g in guards_at(b, pb):
+                    if g[0] == "pred" and g[1] == "core::str::<impl str>::is_char_boundary" and g[3] is False and len(g) > 5 and len(g[5]) == 2:
+                        if describe(b, g[5][0]) in ("LeanString::as_str(p1)", "repr::Repr::as_str(p1.0)", "TEXT(p1)") and describe(b, g[5][1]) == "p2":
+                            return True
+                return False
+            pan = [pb for pb in pan if not same_rejection(pb)]
+            ctx.ob(rule, w, "no-panic-of-its-own", not pan, line=(b.line(pan[0]) if pan else None), how="no explicit panic in the wrapper",
+                   detail="%s panics on a condition of its own (line %s) before / around the call to %s: a call String accepts is rejected" % (w, b.line(pan[0]) if pan else "-", tgt))
         # the index argument is passed through unchanged
         for bb, t in b.calls():
             if callee_name(t) == tgt or callee_name(t) in sib:
